@@ -50,7 +50,7 @@ CHECKS = {
          'DESIGN.md §4 C14'),
  'C10': ('model_checking',
          'TLA+ SaveResume specification (two copies of the Z80!StepInt machine, SaveLoad at any boundary) model-checked for transparency; TLC judges real trace.py runs: n1+n2 instructions at once vs n1, snapshot, n2',
-         'The save/resume bisimulation is model-checked on a scaled frame with HALT waits, EI, prefix chains, repeating block instructions and IM 2 for every save point; generated programs in generated start snapshots (48K/128K, T anywhere incl. frame end and just below 2^24) are run by the real trace.main for sampled split points x {szx,z80} x {plain,-c} x {C,--python} and the final states compared under Obs (registers, interrupt state, border, frame position, paging, AY, all RAM; MEMPTR for SZX).',
+         'The save/resume bisimulation (CPU + the I/O devices trace.py keeps: border, 0x7FFD latch with lock, AY select and registers with read-back) is model-checked on a scaled frame with HALT waits, EI, prefix chains, repeating block instructions, IM 2 and an AY/paging/border program for every save point, with a negative configuration that must fail (AY state lost by a 48K snapshot); generated programs in generated start snapshots (48K/128K, T anywhere incl. frame end and just below 2^24) are run by the real trace.main for sampled split points x {szx,z80} x {plain,-c} x {C,--python} and the final states compared under Obs (registers, interrupt state, border, frame position, paging, AY, all RAM; MEMPTR for SZX).',
          'Split points and programs are sampled. Final snapshots are projected with skoolkit\'s own reader (validated by C09). For Z80 + contention the MEMPTR-derived F bits 5,3 are excepted together with MEMPTR.',
          'DESIGN.md §4 C10'),
  'C12': ('model_checking',
